@@ -1,0 +1,87 @@
+//! Verification hooks for the move list (compiled only with `--cfg rustyyato_chess_verif`).
+
+use chess_bitboard::{BitBoard, Pos};
+
+use super::{
+    Bishop, King, Knight, LegalMovesAt, MoveGen, MoveList, Pawn, PieceType, Queen, Rook, IN_CHECK,
+    NO_CHECK, PROMOTION_PIECES,
+};
+use crate::Board;
+
+impl MoveGen {
+    /// number of entries of the underlying list (consumed ones included)
+    pub fn verif_entries(&self) -> usize {
+        self.moves.len()
+    }
+
+    /// entry `i` as (source, destinations, promotion flag)
+    pub fn verif_entry(&self, i: usize) -> (Pos, BitBoard, bool) {
+        let e = &self.moves[i];
+        (e.src, e.moves, e.promotion)
+    }
+
+    pub fn verif_index(&self) -> usize {
+        self.index
+    }
+
+    pub fn verif_mask(&self) -> BitBoard {
+        self.mask
+    }
+
+    /// how many promotion pieces of the current promotion group have been yielded (0..4)
+    pub fn verif_promotion_cursor(&self) -> usize {
+        PROMOTION_PIECES.len() - self.promotions.len()
+    }
+
+    /// an iterator in an arbitrary state (no validation)
+    pub fn verif_from_entries(
+        entries: &[(Pos, BitBoard, bool)],
+        index: usize,
+        mask: BitBoard,
+        promotion_cursor: usize,
+    ) -> Self {
+        let mut moves = MoveList::default();
+        for &(src, dests, promotion) in entries {
+            moves.push(LegalMovesAt {
+                src,
+                moves: dests,
+                promotion,
+            });
+        }
+        Self {
+            moves,
+            promotions: PROMOTION_PIECES[promotion_cursor..].iter(),
+            mask,
+            index,
+        }
+    }
+}
+
+impl Board {
+    /// exactly one piece-type unit of the generator, into a fresh list.
+    /// `unit`: 0 pawn, 1 knight, 2 bishop, 3 rook, 4 queen, 5 king. `mask` is passed through as is.
+    pub fn verif_unit_legals(&self, unit: u8, in_check: bool, mask: BitBoard) -> MoveGen {
+        let mut moves = MoveList::default();
+        let l = &mut moves;
+        match (unit, in_check) {
+            (0, false) => Pawn::legals::<NO_CHECK>(l, self, mask),
+            (0, true) => Pawn::legals::<IN_CHECK>(l, self, mask),
+            (1, false) => Knight::legals::<NO_CHECK>(l, self, mask),
+            (1, true) => Knight::legals::<IN_CHECK>(l, self, mask),
+            (2, false) => Bishop::legals::<NO_CHECK>(l, self, mask),
+            (2, true) => Bishop::legals::<IN_CHECK>(l, self, mask),
+            (3, false) => Rook::legals::<NO_CHECK>(l, self, mask),
+            (3, true) => Rook::legals::<IN_CHECK>(l, self, mask),
+            (4, false) => Queen::legals::<NO_CHECK>(l, self, mask),
+            (4, true) => Queen::legals::<IN_CHECK>(l, self, mask),
+            (_, false) => King::legals::<NO_CHECK>(l, self, mask),
+            (_, true) => King::legals::<IN_CHECK>(l, self, mask),
+        }
+        MoveGen {
+            moves,
+            promotions: PROMOTION_PIECES.iter(),
+            mask: !BitBoard::empty(),
+            index: 0,
+        }
+    }
+}
